@@ -14,14 +14,14 @@ func GenCfg(t *rapid.T) Cfg {
 		MaxDurMs:  rapid.SampledFrom([]int{0, 0, 0, 30}).Draw(t, "maxDurMs"),
 		TSOnly:    rapid.Bool().Draw(t, "tsOnly"),
 		Mode:      rapid.SampledFrom([]uint32{0, 0o640, 0o600}).Draw(t, "mode"),
-		FileName:  rapid.SampledFrom([]string{"ev.log", "ev", "audit.json", "a.b.c"}).Draw(t, "fileName"),
+		FileName:  rapid.SampledFrom([]string{"ev.log", "ev", "audit.json", "a.b.c", "audit.log.log", "a.b.b", ".hidden", "x.tar.gz"}).Draw(t, "fileName"),
 		Custom:    rapid.IntRange(0, 3).Draw(t, "custom") == 0,
 		NestedDir: rapid.Bool().Draw(t, "nested"),
 	}
 }
 
 func GenOps(t *rapid.T, max int, pauses bool) []Op {
-	kinds := []string{"write", "write", "write", "write", "write", "write", "write", "write", "write", "write", "write", "write", "reopen", "reopen", "rename", "foreign", "nofmt"}
+	kinds := []string{"write", "write", "write", "write", "write", "write", "write", "write", "write", "write", "write", "write", "reopen", "reopen", "rename", "foreign", "nofmt", "touch", "restart", "restart+reopen", "reopen+idle", "restart+reopen+idle"}
 	if pauses {
 		kinds = append(kinds, "pause")
 	}
